@@ -317,3 +317,57 @@ package keeper
 //@ func Keeper.Logger(ctx) (l)
 //@   trusted the logger handle is not modelled; the method only derives a logger from the context
 //@   pure
+
+// ================================================================ list queries (C20, C18): the callbacks handed to the SDK pagination
+//
+// The pagination library (assumed: visits every key under the prefix once, in key order, decodes the value, and
+// partitions the accepted items into pages) calls these function literals with the part of the store key that follows
+// the prefix.  Each callback is a function of (key, value, request) only, touches no state, cannot panic on a
+// well-formed key, and reports exactly the receiver and sender encoded in the key together with the decoded stream -
+// which is what the point query returns for that pair.
+
+// key = len(receiver) ++ receiver ++ len(sender) ++ sender (the stream key without its one-byte section prefix)
+//@ func Keeper.Streams$1(key, stream) (res, err)
+//@   props C20 C18
+//@   requires len(key) >= 2 && 1 <= key[0] && key[0] <= 255 && len(key) >= 2 + key[0] && 1 <= key[1+key[0]] && key[1+key[0]] <= 255 && len(key) == 2 + key[0] + key[1+key[0]]
+//@   requires forall i int :: {key[i]} 0 <= i && i < len(key) ==> 0 <= key[i] && key[i] <= 255
+//@   pure
+//@   nopanic
+//@   ensures @always_listed err == nil && !ptrnil(res)
+//@   ensures @receiver_from_key validBech32(res.Receiver) && len(addrOf(res.Receiver)) == key[0] && forall i int :: {addrOf(res.Receiver)[i]} 0 <= i && i < key[0] ==> addrOf(res.Receiver)[i] == key[1+i]
+//@   ensures @sender_from_key validBech32(res.Sender) && len(addrOf(res.Sender)) == key[1+key[0]] && forall i int :: {addrOf(res.Sender)[i]} 0 <= i && i < key[1+key[0]] ==> addrOf(res.Sender)[i] == key[2+key[0]+i]
+//@   ensures @decoded_stream res.Stream == ref(stream)
+
+// listed iff the sender encoded in the key is the requested sender (compared as addresses)
+//@ func Keeper.AllStreamsForSender$1(key, stream) (res, err)
+//@   props C20 C18
+//@   requires len(key) >= 2 && 1 <= key[0] && key[0] <= 255 && len(key) >= 2 + key[0] && 1 <= key[1+key[0]] && key[1+key[0]] <= 255 && len(key) == 2 + key[0] + key[1+key[0]]
+//@   requires forall i int :: {key[i]} 0 <= i && i < len(key) ==> 0 <= key[i] && key[i] <= 255
+//@   requires 1 <= len(senderAddr) && len(senderAddr) <= 255
+//@   pure
+//@   nopanic
+//@   ensures @no_error err == nil
+//@   ensures @listed_iff_sender_matches !ptrnil(res) == (len(senderAddr) == key[1+key[0]] && forall i int :: {senderAddr[i]} 0 <= i && i < len(senderAddr) ==> senderAddr[i] == key[2+key[0]+i])
+//@   ensures @receiver_from_key !ptrnil(res) ==> validBech32(res.Receiver) && len(addrOf(res.Receiver)) == key[0] && forall i int :: {addrOf(res.Receiver)[i]} 0 <= i && i < key[0] ==> addrOf(res.Receiver)[i] == key[1+i]
+//@   ensures @sender_is_the_requested_one !ptrnil(res) ==> validBech32(res.Sender) && bytesval(addrOf(res.Sender)) == bytesval(senderAddr)
+//@   ensures @decoded_stream !ptrnil(res) ==> res.Stream == ref(stream)
+
+// key = len(sender) ++ sender (the receiver's prefix has been stripped by the prefix store)
+//@ func Keeper.AllStreamsForReceiver$1(key, stream) (res, err)
+//@   props C20 C18
+//@   requires len(key) >= 1 && 1 <= key[0] && key[0] <= 255 && len(key) == 1 + key[0]
+//@   requires forall i int :: {key[i]} 0 <= i && i < len(key) ==> 0 <= key[i] && key[i] <= 255
+//@   requires 1 <= len(receiverAddr) && len(receiverAddr) <= 255
+//@   pure
+//@   nopanic
+//@   ensures @always_listed err == nil && !ptrnil(res)
+//@   ensures @receiver_is_the_requested_one validBech32(res.Receiver) && bytesval(addrOf(res.Receiver)) == bytesval(receiverAddr)
+//@   ensures @sender_from_key validBech32(res.Sender) && len(addrOf(res.Sender)) == key[0] && forall i int :: {addrOf(res.Sender)[i]} 0 <= i && i < key[0] ==> addrOf(res.Sender)[i] == key[1+i]
+//@   ensures @decoded_stream res.Stream == ref(stream)
+
+// the point query the list items are compared with: the stored stream of exactly that (receiver, sender) pair
+//@ func Keeper.StreamByReceiverSender(c, req) (resp, err)
+//@   props C20
+//@   pure
+//@   ensures @found_only err == nil ==> validBech32(req.ReceiverAddr) && validBech32(req.SenderAddr) && strHas(str_store, bytesval(addrOf(req.ReceiverAddr)), bytesval(addrOf(req.SenderAddr)))
+//@   ensures @names_as_requested err == nil ==> resp.Stream.Receiver == req.ReceiverAddr && resp.Stream.Sender == req.SenderAddr
